@@ -4,11 +4,11 @@ set -e
 cd "$(dirname "$0")/.."
 export GOFLAGS=-mod=mod GOPROXY=off GOSUMDB=off GOTOOLCHAIN=local
 mkdir -p build/harness evidence
-# translator (T properties) regenerates coq/gen from /repo
-if [ -d tools/go2coq ]; then
-  (cd tools/go2coq && go build -o ../../build/go2coq . )
-  [ -x bin/regen.sh ] && bin/regen.sh || true
-fi
+# translators (T properties) regenerate coq/gen from /repo; each regen script builds its own tool
+mkdir -p coq/gen
+for r in bin/regen*.sh; do
+  [ -x "$r" ] && { "$r" || echo "setup: $r failed (the affected checks will report it)"; }
+done
 bin/mkcoq.sh
 (cd coq && timeout 3000 make -j16 -k) || echo "setup: some Coq targets failed (the per-property checks report which)"
 cp /repo/go.sum harness/go.sum
